@@ -226,6 +226,8 @@ def check(case):
         if not any(c >= 2 for c in cnt.values()):
             mult_ok = False
     classes = [f"key{case['key']}", case["est"], case["fmt"], f"folds{folds}"]
+    if case.get("sweep_before"):
+        classes.append("brewed-before-with-another-fold-count")
     if nfiles > 1:
         classes.append("multi-file")
     if cap is not None and cap < min(len(all_rids - rj) for rj in R):
